@@ -266,7 +266,7 @@ package fs
 //@ func (PathHasher).storeHash
 //@   requires hasher != nil
 //@   opt nopanic=off
-//@   callsite xattr.LSet only_on_outputs [C09]: hasPrefix(path, "plz-out/") && arg_path == path
+//@   callsite xattr.LSet only_on_outputs [C09 C03]: hasPrefix(path, "plz-out/") && arg_path == path
 //@   callsite xattr.Set never_through_a_link [C09]: false
 //@ func (PathHasher).hash
 //@   requires hasher != nil
@@ -275,8 +275,11 @@ package fs
 //@   opt precall=off
 //@   opt callbacks=pure
 //@   callsite os.Readlink trackresult linkdest string: result0
+//@   callsite (Writer).Write collect HW string: string(arg_p)
+//@   ensures an_in_repo_link_is_hashed_by_its_destination [C09 C01]: called("os.Readlink") && result1 == nil && !called("(PathHasher).fileHash") ==> \
+//@      collected(HW, hasher.ensureRelative(linkdest))
 //@   callsite xattr.Get never_through_a_link [C09]: false
 //@   callsite xattr.LGet of_the_path_itself [C09]: arg_path == path && arg_name == hasher.xattrName
-//@   callsite xattr.LGet a_stored_hash_is_trusted_only_for_outputs [C09]: read && hasher.useXattrs && hasPrefix(path, "plz-out/")
+//@   callsite xattr.LGet a_stored_hash_is_trusted_only_for_outputs [C09 C03]: read && hasher.useXattrs && hasPrefix(path, "plz-out/")
 //@   callsite (PathHasher).fileHash contents_only_for_links_that_leave_the_repo [C09]: arg_filename == path && \
 //@      (called("os.Readlink") ==> !((hasher.ensureRelative(linkdest) != linkdest || !filepath.IsAbs(linkdest)) && !filepath.IsAbs(path)))
